@@ -68,6 +68,13 @@ def pool(rng, quick):
           ["mat", [0, 2], cnot], ["named", "CNOT", [0, 2]], ["ctrl", 2, ["named", "CNOT", [0, 1]]],
           ["ctrl", 0, ["named", "CNOT", [2, 1]]], ["mat", [0, 1], kron_mat(I2, I2)], ["named", "I", [1]],
           ["mat", [0, 1], kron_mat(oracles.STD1["S"], I2)], ["mat", [0, 1], kron_mat(np.exp(0.7j) * X, I2)]]
+    # under a control, a global phase of the target is a relative phase: these must compare UNEQUAL
+    def scaled(m, z):
+        return [[[(complex(re, im) * z).real, (complex(re, im) * z).imag] for re, im in row] for row in m]
+    P += [["ctrl", 0, ["mat", [1, 2], cnot]], ["ctrl", 0, ["mat", [1, 2], scaled(cnot, -1)]], ["ctrl", 0, ["mat", [1, 2], scaled(cnot, 1j)]],
+          ["ctrl", 0, ["ctrl", 1, ["named", "X", [2]]]], ["ctrl", 0, ["ctrl", 1, ["bsr", 2, [1.0, 0.0, 0.0], PI, 0.0]]],
+          ["ctrl", 0, ["mat", [1, 2], kron_mat(I2, I2)]], ["ctrl", 0, ["mat", [1, 2], scaled(kron_mat(I2, I2), -1)]],
+          ["ctrl", 1, ["mat", [0, 2], cnot]], ["ctrl", 1, ["mat", [0, 2], scaled(cnot, -1)]]]
     if not quick:
         for _ in range(25):
             P.append(gen.rand_gate_spec(rng, 3, max_ctrl=2))
